@@ -116,45 +116,118 @@ theorem probes_spec (c : Config) (has : PyStr → Bool) (name : PyStr) (op : Op)
       else [] :=
   checkProbes_eq c has name op
 
-/-! ### (2) a denied request has no effect -/
+/-! ### (2) a denied request has no effect — precisely: nothing but `hasattr` probes
 
-/-- **Denied ⇒ no effect.** If the object's type has no hook for the operation and the request fails, nothing but
-`hasattr` probes of that same object happened: no accessor ran, nothing was called. For all four request kinds. -/
+`_check_attr` asks `hasattr(obj, prefix+name)` (and `hasattr(obj, name)`) before it refuses, also for writes and
+deletes, and `hasattr` EVALUATES the attribute (a property getter, a `__getattr__`).  So "no effect" is: no accessor,
+no hook, no call — only probes of the name and its twin on that very object, plus whatever evaluating those two
+attributes does by itself (`probeExtra`; nothing for objects with a pure attribute lookup). -/
+
+/-- **Denied ⇒ nothing but probes.** If the object's type has no hook for the operation and the request fails, every
+event is a `hasattr` probe of that object (or what evaluating the probed attribute did); with a pure `hasattr` the
+effect log is empty. For all four request kinds. -/
 theorem denied_no_effect (c : Config) (o : Obj) (nm : Name) (r : Req) (e : Err)
     (hh : o.hook r.op = none) (h : (handle c o nm r).out = .error e) :
-    (handle c o nm r).log.filter Ev.isEffect = []
-    ∧ ∀ ev ∈ (handle c o nm r).log, ∃ n, ev = .probe o.id n := by
-  have key : ∀ op, o.hook op = none → (run c o nm op).out = .error e →
-      (run c o nm op).log.filter Ev.isEffect = [] ∧ ∀ ev ∈ (run c o nm op).log, ∃ n, ev = .probe o.id n := by
-    intro op hh h
-    unfold run at h ⊢
-    cases hd : decodeName nm with
-    | error e' => simp
-    | ok name =>
-      simp only [hd, runNamed, hh, runDefault] at h ⊢
-      cases hc : checkAttr c o.has name op with
-      | ok n => simp [hc] at h
-      | error e' =>
-        simp only [probeEvs_filter_effect, true_and]
-        intro ev hev
-        obtain ⟨n, _, rfl⟩ := mem_probeEvs _ _ _ hev
-        exact ⟨n, rfl⟩
+    OnlyProbes o (handle c o nm r).log
+    ∧ (PureProbes o → (handle c o nm r).log.filter Ev.isEffect = []) := by
   cases r with
-  | getattr => exact key .get hh h
-  | setattr => exact key .set hh h
-  | delattr => exact key .del hh h
-  | callattr =>
-    simp only [handle] at h ⊢
-    obtain ⟨hr, hl⟩ := thenCall_error o _ e h
-    rw [hl]
-    exact key .get hh hr
+  | getattr => exact run_denied c o nm .get e hh h
+  | setattr => exact run_denied c o nm .set e hh h
+  | delattr => exact run_denied c o nm .del e hh h
+  | callattr => exact getcall_denied c o nm e hh h
+
+/-- the probes are of the name and of its twin only, on that object, and none at all when the kind is disabled -/
+theorem denied_probes_only_name_and_twin (c : Config) (o : Obj) (name : PyStr) (op : Op) (e : Err)
+    (hh : o.hook op = none) (hp : PureProbes o) (h : (run c o (.text name) op).out = .error e) :
+    ∀ ev ∈ (run c o (.text name) op).log, ev = .probe o.id name ∨ ev = .probe o.id (c.exposedPrefix ++ name) := by
+  simp only [run, decodeName, runNamed, hh, runDefault] at h ⊢
+  cases hc : checkAttr c o.has name op with
+  | ok n => simp [hc] at h
+  | error e' =>
+    simp only [probeEvs_pure o hp, List.mem_map]
+    rintro ev ⟨n, hn, rfl⟩
+    rcases mem_checkProbes c o.has name op n hn with rfl | rfl
+    · exact Or.inl rfl
+    · exact Or.inr rfl
 
 /-- conversely an allowed request reaches exactly one attribute, after the probes: the one `_check_attr` named -/
 theorem allowed_effect_exact (c : Config) (o : Obj) (name : PyStr) (op : Op) (n : PyStr)
     (hh : o.hook op = none) (h : checkAttr c o.has name op = .ok n) :
     run c o (.text name) op =
-      { out := .ok (.direct n), log := probeEvs o.id (checkProbes c o.has name op) ++ [.access o.id op n] } := by
+      { out := .ok (.direct n), log := probeEvs o (checkProbes c o.has name op) ++ [.access o.id op n] } := by
   simp [run, decodeName, runNamed, hh, runDefault, h]
+
+/-! #### the other handlers that reach attributes by a peer-chosen name -/
+
+/-- `_handle_cmp` (on `type(obj)`) and `_handle_ctxexit` (name `__exit__`) are read-then-call through the same
+`_access_attr`: refused ⇒ nothing but probes; allowed ⇒ only the name `_check_attr` approved is read and called -/
+theorem cmp_denied_no_effect (c : Config) (ty : Obj) (opName : Name) (e : Err)
+    (hh : ty.hook .get = none) (h : (handleCmp c ty opName).out = .error e) :
+    OnlyProbes ty (handleCmp c ty opName).log
+    ∧ (PureProbes ty → (handleCmp c ty opName).log.filter Ev.isEffect = []) :=
+  getcall_denied c ty opName e hh h
+
+theorem ctxexit_denied_no_effect (c : Config) (o : Obj) (e : Err)
+    (hh : o.hook .get = none) (h : (handleCtxExit c o).out = .error e) :
+    OnlyProbes o (handleCtxExit c o).log
+    ∧ (PureProbes o → (handleCtxExit c o).log.filter Ev.isEffect = []) :=
+  getcall_denied c o (.text exitName) e hh h
+
+theorem cmp_reaches_only_approved (c : Config) (ty : Obj) (opName : Name) (hh : ty.hook .get = none)
+    (hp : PureProbes ty) (ev : Ev) (hev : ev ∈ (handleCmp c ty opName).log) (heff : ev.isEffect = true) :
+    ∃ s n, decodeName opName = .ok s ∧ checkAttr c ty.has s .get = .ok n
+      ∧ (ev = .access ty.id .get n ∨ ev = .call ty.id n) :=
+  getcall_effects c ty opName hh hp ev hev heff
+
+theorem ctxexit_reaches_only_approved (c : Config) (o : Obj) (hh : o.hook .get = none)
+    (hp : PureProbes o) (ev : Ev) (hev : ev ∈ (handleCtxExit c o).log) (heff : ev.isEffect = true) :
+    ∃ n, checkAttr c o.has exitName .get = .ok n ∧ (ev = .access o.id .get n ∨ ev = .call o.id n) := by
+  obtain ⟨s, n, hs, hc, h⟩ := getcall_effects c o (.text exitName) hh hp ev hev heff
+  simp only [decodeName, Except.ok.injEq] at hs
+  subst hs
+  exact ⟨n, hc, h⟩
+
+/-- **`_handle_oldslicing`**: the first name is tried; ANY exception there (a policy refusal included) is swallowed
+and the second peer-chosen name is tried — through the policy again. So: (a) if the first stage succeeds the second
+name is never consulted; (b) otherwise the outcome is the second stage's; (c) whatever happens, on a hook-less object
+with a pure `hasattr` the only attributes read or called are the ones `_check_attr` approved for one of the two names;
+(d) both refused ⇒ refused, nothing but probes. -/
+theorem oldslicing_first_succeeds (c : Config) (o : Obj) (a f : Name) (cr : Bool)
+    (h : stageFails o (thenCall o (run c o a .get)) cr = false) :
+    handleOldSlicing c o a f cr = thenCall o (run c o a .get) := by
+  simp [handleOldSlicing, h]
+
+theorem oldslicing_falls_back (c : Config) (o : Obj) (a f : Name) (cr : Bool)
+    (h : stageFails o (thenCall o (run c o a .get)) cr = true) :
+    (handleOldSlicing c o a f cr).out = (thenCall o (run c o f .get)).out
+    ∧ (handleOldSlicing c o a f cr).log
+        = (thenCall o (run c o a .get)).log ++ (thenCall o (run c o f .get)).log := by
+  simp [handleOldSlicing, h]
+
+theorem oldslicing_reaches_only_approved (c : Config) (o : Obj) (a f : Name) (cr : Bool)
+    (hh : o.hook .get = none) (hp : PureProbes o)
+    (ev : Ev) (hev : ev ∈ (handleOldSlicing c o a f cr).log) (heff : ev.isEffect = true) :
+    ∃ nm, (nm = a ∨ nm = f) ∧ ∃ s n, decodeName nm = .ok s ∧ checkAttr c o.has s .get = .ok n
+      ∧ (ev = .access o.id .get n ∨ ev = .call o.id n) := by
+  unfold handleOldSlicing at hev
+  split at hev
+  · simp only [List.mem_append] at hev
+    rcases hev with hev | hev
+    · exact ⟨a, Or.inl rfl, getcall_effects c o a hh hp ev hev heff⟩
+    · exact ⟨f, Or.inr rfl, getcall_effects c o f hh hp ev hev heff⟩
+  · exact ⟨a, Or.inl rfl, getcall_effects c o a hh hp ev hev heff⟩
+
+theorem oldslicing_both_refused (c : Config) (o : Obj) (a f : Name) (cr : Bool) (e1 e2 : Err)
+    (hh : o.hook .get = none) (h1 : (run c o a .get).out = .error e1) (h2 : (run c o f .get).out = .error e2) :
+    (handleOldSlicing c o a f cr).out = .error e2
+    ∧ (PureProbes o → (handleOldSlicing c o a f cr).log.filter Ev.isEffect = []) := by
+  have t1 : (thenCall o (run c o a .get)).out = .error e1 := by simp [thenCall, h1]
+  have t2 : (thenCall o (run c o f .get)).out = .error e2 := by simp [thenCall, h2]
+  have hf : stageFails o (thenCall o (run c o a .get)) cr = true := by simp [stageFails, t1]
+  obtain ⟨ho, hl⟩ := oldslicing_falls_back c o a f cr hf
+  refine ⟨by rw [ho, t2], fun hp => ?_⟩
+  rw [hl, List.filter_append, (getcall_denied c o a e1 hh t1).2 hp, (getcall_denied c o f e2 hh t2).2 hp]
+  rfl
 
 /-- for a hook-less object the outcome of the request IS the decision table -/
 theorem access_is_checkAttr (c : Config) (o : Obj) (name : PyStr) (op : Op) (hh : o.hook op = none) :
@@ -183,9 +256,9 @@ theorem hook_decides (c : Config) (o : Obj) (name : PyStr) (op : Op) (h : Hook) 
   cases (h name).err <;> rfl
 
 /-- **Restricted views permit exactly their listed names — reading.** Whatever the configuration. -/
-theorem restricted_get (c : Config) (id t : Nat) (attrs : List PyStr) (w : Option (List PyStr)) (vh : PyStr → Bool)
-    (name : PyStr) :
-    run c (restrictedView id t attrs w vh) (.text name) .get =
+theorem restricted_get (c : Config) (id t : Nat) (attrs : List PyStr) (w : Option (List PyStr))
+    (vo th : PyStr → Bool) (name : PyStr) :
+    run c (restrictedView id t attrs w vo th) (.text name) .get =
       if attrs.contains name then { out := .ok (.hooked name), log := [.hook id .get name, .access t .get name] }
       else { out := .error .attributeError, log := [.hook id .get name] } := by
   have hg : Gen.Policy.restrictedHasGetHook = true := by decide
@@ -193,9 +266,9 @@ theorem restricted_get (c : Config) (id t : Nat) (attrs : List PyStr) (w : Optio
   cases attrs.contains name <;> rfl
 
 /-- **… writing**: `wattrs`, which defaults to `attrs` when not given. -/
-theorem restricted_set (c : Config) (id t : Nat) (attrs : List PyStr) (w : Option (List PyStr)) (vh : PyStr → Bool)
-    (name : PyStr) :
-    run c (restrictedView id t attrs w vh) (.text name) .set =
+theorem restricted_set (c : Config) (id t : Nat) (attrs : List PyStr) (w : Option (List PyStr))
+    (vo th : PyStr → Bool) (name : PyStr) :
+    run c (restrictedView id t attrs w vo th) (.text name) .set =
       if (match w with | some l => l | none => attrs).contains name then
         { out := .ok (.hooked name), log := [.hook id .set name, .access t .set name] }
       else { out := .error .attributeError, log := [.hook id .set name] } := by
@@ -203,35 +276,79 @@ theorem restricted_set (c : Config) (id t : Nat) (attrs : List PyStr) (w : Optio
   simp only [run, decodeName, runNamed, restrictedView, hs, if_true, runHook, listHook]
   cases (match w with | some l => l | none => attrs).contains name <;> rfl
 
-/-- **… deleting**: the view's class has no delete hook, so the configuration decides — about the VIEW object; the
-wrapped target is never reached by a delete, whatever the configuration. -/
-theorem restricted_del_never_reaches_target (c : Config) (id t : Nat) (attrs : List PyStr) (w : Option (List PyStr))
-    (vh : PyStr → Bool) (nm : Name) :
-    run c (restrictedView id t attrs w vh) nm .del = run c (plainObj id vh) nm .del
-    ∧ ∀ ev ∈ (run c (restrictedView id t attrs w vh) nm .del).log,
-        (∃ n, ev = .probe id n) ∨ (∃ n, ev = .access id .del n) := by
-  have hd : Gen.Policy.restrictedHasDelHook = false := by decide
-  have heq : run c (restrictedView id t attrs w vh) nm .del = run c (plainObj id vh) nm .del := by
-    unfold run; cases decodeName nm <;> simp [runNamed, restrictedView, plainObj, runDefault]
-  refine ⟨heq, ?_⟩
-  rw [heq]
+/-- **… deleting**: the view's class has no delete hook, so the configuration decides — about the VIEW object, and
+the delete itself acts on the view.  The `hasattr(view, ..)` probes on the way go through the view's
+`__getattr__ = _rpyc_getattr`, which READS the target for names listed in `attrs` (only those, only reads): every
+event of a delete request is a probe of the view, a read of a LISTED name on the target, or the delete on the view.
+The target is never written, deleted from or called. -/
+theorem restricted_del_reaches_target_only_by_listed_reads (c : Config) (id t : Nat) (attrs : List PyStr)
+    (w : Option (List PyStr)) (vo th : PyStr → Bool) (nm : Name) :
+    ∀ ev ∈ (run c (restrictedView id t attrs w vo th) nm .del).log,
+        (∃ n, ev = .probe id n) ∨ (∃ n, attrs.contains n = true ∧ ev = .access t .get n)
+        ∨ (∃ n, ev = .access id .del n) := by
+  have hprobe : ∀ ns ev, ev ∈ probeEvs (restrictedView id t attrs w vo th) ns →
+      (∃ n, ev = .probe id n) ∨ (∃ n, attrs.contains n = true ∧ ev = .access t .get n) := by
+    intro ns ev hev
+    obtain ⟨n, _, h⟩ := mem_probeEvs _ ns ev hev
+    rcases h with rfl | h
+    · exact Or.inl ⟨n, rfl⟩
+    · simp only [restrictedView] at h
+      split at h
+      · rename_i hc
+        simp only [List.mem_singleton] at h
+        simp only [Bool.and_eq_true] at hc
+        exact Or.inr ⟨n, hc.2, h⟩
+      · simp at h
   unfold run
   cases decodeName nm with
   | error e => simp
   | ok name =>
-    simp only [runNamed, plainObj, runDefault]
-    cases checkAttr c vh name .del with
+    have hk : (restrictedView id t attrs w vo th).hook .del = none := rfl
+    simp only [runNamed, hk, runDefault]
+    cases checkAttr c (restrictedView id t attrs w vo th).has name .del with
     | error e =>
       intro ev hev
-      obtain ⟨n, _, rfl⟩ := mem_probeEvs _ _ _ hev
-      exact Or.inl ⟨n, rfl⟩
+      rcases hprobe _ ev hev with h | h
+      · exact Or.inl h
+      · exact Or.inr (Or.inl h)
     | ok n =>
       intro ev hev
       simp only [List.mem_append, List.mem_singleton] at hev
       rcases hev with hev | rfl
-      · obtain ⟨n', _, rfl⟩ := mem_probeEvs _ _ _ hev
-        exact Or.inl ⟨n', rfl⟩
-      · exact Or.inr ⟨n, rfl⟩
+      · rcases hprobe _ ev hev with h | h
+        · exact Or.inl h
+        · exact Or.inr (Or.inl h)
+      · exact Or.inr (Or.inr ⟨n, rfl⟩)
+
+/-- for a name that is not listed (and whose twin is not listed) a delete request does not reach the target at all -/
+theorem restricted_del_unlisted_never_reaches_target (c : Config) (id t : Nat) (attrs : List PyStr)
+    (w : Option (List PyStr)) (vo th : PyStr → Bool) (name : PyStr)
+    (h1 : attrs.contains name = false) (h2 : attrs.contains (c.exposedPrefix ++ name) = false) :
+    ∀ ev ∈ (run c (restrictedView id t attrs w vo th) (.text name) .del).log,
+        (∃ n, ev = .probe id n) ∨ (∃ n, ev = .access id .del n) := by
+  have hk : (restrictedView id t attrs w vo th).hook .del = none := rfl
+  have hprobe : ∀ ev, ev ∈ probeEvs (restrictedView id t attrs w vo th)
+      (checkProbes c (restrictedView id t attrs w vo th).has name .del) → ∃ n, ev = .probe id n := by
+    intro ev hev
+    obtain ⟨n, hn, h⟩ := mem_probeEvs _ _ ev hev
+    rcases h with rfl | h
+    · exact ⟨n, rfl⟩
+    · have hc : attrs.contains n = false := by
+        rcases mem_checkProbes _ _ _ _ n hn with rfl | rfl
+        · exact h1
+        · exact h2
+      simp [restrictedView] at h
+      have hnot : n ∉ attrs := by simpa using hc
+      exact absurd h.1.2 hnot
+  simp only [run, decodeName, runNamed, hk, runDefault]
+  cases checkAttr c (restrictedView id t attrs w vo th).has name .del with
+  | error e => intro ev hev; exact Or.inl (hprobe ev hev)
+  | ok n =>
+    intro ev hev
+    simp only [List.mem_append, List.mem_singleton] at hev
+    rcases hev with hev | rfl
+    · exact Or.inl (hprobe ev hev)
+    · exact Or.inr ⟨n, rfl⟩
 
 /-- **Services.** The `Service` base class defines write and delete hooks that refuse every name and touch nothing —
 under every configuration, classic-mode blanket permissions included; reading a service follows the configuration. -/
@@ -244,71 +361,140 @@ theorem service_write_delete_denied (c : Config) (id : Nat) (has : PyStr → Boo
   refine ⟨?_, ?_, ?_⟩
   · simp [run, decodeName, runNamed, serviceObj, hs, runHook, denyHook]
   · simp [run, decodeName, runNamed, serviceObj, hd, runHook, denyHook]
-  · intro nm; unfold run; cases decodeName nm <;> simp [runNamed, serviceObj, plainObj, runDefault]
+  · intro nm
+    have hpe : probeEvs (serviceObj id has) = probeEvs (plainObj id has) := by
+      funext ns; exact probeEvs_congr (serviceObj id has) (plainObj id has) rfl rfl ns
+    unfold run; cases decodeName nm <;> simp [runNamed, runDefault, hpe] <;> simp [serviceObj, plainObj]
 
-/-! ### (4) isolation: an invariant over ALL histories
+/-! ### (4) isolation: an invariant over ALL histories of a heap of dict objects
 
-Histories contain, besides opening / classic-mode `on_connect` / requests / closing of any number of connections:
-the application EDITING a settings-dict object it has passed (or will pass) to `Connection(...)` and reusing it, and the
-application editing the module-level `DEFAULT_CONFIG`. -/
+The world (`Policy/Model.lean`, "the configuration heap") has object identity: the module-level `DEFAULT_CONFIG` dict,
+the application's settings-dict objects (passed as `config=`, kept, edited, reused), one `_config` lookup chain per
+connection, and the ONE set object `DEFAULT_CONFIG["safe_attrs"]` refers to.  `Connection.__init__` and the classic
+connect exist in every variant (`InitMode`: own copy / the defaults object itself / the caller's object itself / a
+mapping that reads through; classic overrides written to the connection's own object or into the caller's dict; a
+classic connect growing the shared set in place).  Which variant the code IS is measured by the generator on the live
+objects; `measured_modes_are_good` is the obligation that breaks when a regression shares state, and the `*_breaks_*`
+theorems show that each bad variant really does violate the statement in this model (so the isolation theorems below
+are not true by construction of the state space). -/
 
-/-- **The defaults are never changed by rpyc**: whatever connections are opened (with whatever dicts), put in classic
-mode, used and closed, in whatever order — only the application's own `DEFAULT_CONFIG.update` changes them. -/
-theorem default_never_changes (w : World) (evs : List Event) (h : ∀ e ∈ evs, ∀ ov, e ≠ .setDefault ov) :
-    (runEvents w evs).dflt = w.dflt :=
-  runEvents_dflt w evs h
+/-- **The code copies.** Measured on the live code: `__init__` builds an own dict (copy of the defaults, then the
+caller's keys), classic mode writes its overrides into the connection's own dict and grows no shared set. -/
+theorem measured_modes_are_good : Modes.measured = Modes.good := by decide
 
-/-- **A connection's configuration is the copy taken when it was opened.** A history in which connection `j` itself
-does not take part — other connections' openings, classic-mode connects, requests, closings, the application editing
-ANY settings dict (including the very object `j` was opened with) or `DEFAULT_CONFIG` — leaves `j` exactly as it was. -/
-theorem others_cannot_change (w : World) (evs : List Event) (j : Nat) (h : ∀ e ∈ evs, e.conn ≠ some j) :
-    (runEvents w evs).conns j = w.conns j := by
-  induction evs generalizing w with
-  | nil => rfl
-  | cons e es ih =>
-    simp only [runEvents]
-    rw [ih _ (fun x hx => h x (List.mem_cons_of_mem _ hx)), step_other w e j (h e (List.mem_cons_self ..))]
+/-- … and the copy is SHALLOW (measured): a connection that was given no `safe_attrs` refers to the very set object
+`DEFAULT_CONFIG` refers to — which is how the model's `defaultDict`/`copy` treat it -/
+theorem default_safe_set_is_shared_by_reference :
+    Gen.Policy.initSharesDefaultSafeSet = true ∧ defaultDict.safe = some .dfltSet := by decide
 
-/-- … hence every decision it makes is unchanged: for every object, name and request kind -/
-theorem others_cannot_change_decisions (w : World) (evs : List Event) (j : Nat) (h : ∀ e ∈ evs, e.conn ≠ some j)
-    (o : Obj) (nm : Name) (r : Req) : (runEvents w evs).decide j o nm r = w.decide j o nm r := by
-  simp only [World.decide, others_cannot_change w evs j h]
+/-- **rpyc never writes the defaults nor a caller's dict**: after any history, `DEFAULT_CONFIG` (dict and set object)
+and every settings-dict object of the application hold exactly what the application itself put there. -/
+theorem shared_objects_never_written (w : HWorld) (evs : List HEvent) (r : Ref) (hr : ∀ k, r ≠ .own k)
+    (happ : ∀ e ∈ evs, ∀ ov, e ≠ .editDict r ov) (hset : ∀ e ∈ evs, e.fair = true) :
+    (hrun Modes.measured w evs).dicts r = w.dicts r ∧ (hrun Modes.measured w evs).dfltSet = w.dfltSet := by
+  rw [measured_modes_are_good]
+  exact ⟨hrun_good_sharedDicts evs w r hr happ, hrun_good_dfltSet evs w hset⟩
 
-/-- **Isolation (noninterference).** After ANY history, connection `j`'s state is what it would be had only `j`'s own
-events and the application's edits (which decide what a connection opened LATER starts from) happened: erasing every
-other connection's opening, classic-mode `on_connect`, requests and closing changes nothing for `j`. -/
-theorem isolation (w : World) (evs : List Event) (j : Nat) :
-    (runEvents w evs).conns j = (runEvents w (evs.filter (fun e => e.conn == some j || e.isEnv))).conns j :=
-  runEvents_filter j evs w w rfl rfl rfl
+/-- **A connection's configuration is the copy taken when it was opened.** Once connection `j` is established, after
+ANY further fair history — other connections opened with any dict object (the one `j` was opened with included),
+classic-mode connects, requests, closes, the application editing any of its dicts or `DEFAULT_CONFIG`, `j`'s own
+requests and closing — the configuration `j` enforces is the same. -/
+theorem config_frozen_after_open (w : HWorld) (evs : List HEvent) (j : Nat) (hinv : OwnInv w)
+    (hf : ∀ e ∈ evs, e.fair = true) (hj : w.conns j ≠ .fresh) :
+    (hrun Modes.measured w evs).cfgOf j = w.cfgOf j := by
+  rw [measured_modes_are_good]
+  exact hrun_good_frozen evs w j hinv hf hj
 
-/-- the same, said about decisions -/
-theorem isolation_decisions (w : World) (evs : List Event) (j : Nat) (o : Obj) (nm : Name) (r : Req) :
-    (runEvents w evs).decide j o nm r
-      = (runEvents w (evs.filter (fun e => e.conn == some j || e.isEnv))).decide j o nm r := by
-  simp only [World.decide, isolation w evs j]
+/-- every state reachable from the initial one has the ownership invariant the theorem above asks for -/
+theorem reachable_owns (evs : List HEvent) : OwnInv (hrun Modes.measured HWorld.init evs) := by
+  rw [measured_modes_are_good]
+  exact hrun_good_inv evs _ ownInv_init
 
-/-- **Opening takes a snapshot**: the defaults as they are NOW, overlaid with the dict's content as it is NOW;
-the classic-mode `on_connect` then rewrites that connection's own copy -/
-theorem open_takes_snapshot (w : World) (i : Nat) (ov : Overlay) (d : Nat) (hf : w.conns i = .fresh) :
-    (step w (.open i ov)).conns i = .live (applyOverlay w.dflt ov)
-    ∧ (step w (.openWith i d)).conns i = .live (applyOverlay w.dflt (w.dicts d))
-    ∧ (step (step w (.open i ov)) (.slave i)).conns i = .live (onConnectSlave (applyOverlay w.dflt ov)) := by
-  simp [step, hf]
+/-- **Isolation**, from the initial state: whatever happened before (`pre`), whatever fair events happen after
+(`post`), an established connection keeps its configuration -/
+theorem isolation (pre post : List HEvent) (j : Nat) (hf : ∀ e ∈ post, e.fair = true)
+    (hj : (hrun Modes.measured HWorld.init pre).conns j ≠ .fresh) :
+    (hrun Modes.measured (hrun Modes.measured HWorld.init pre) post).cfgOf j
+      = (hrun Modes.measured HWorld.init pre).cfgOf j :=
+  config_frozen_after_open _ post j (reachable_owns pre) hf hj
 
-/-- **… and the snapshot is frozen.** Once connection `j` holds `cfg`, then after ANY further history — edits of
-the dict it was opened with and of `DEFAULT_CONFIG` included — it holds `cfg` or `cfg` with the classic-mode update
-(its own `on_connect`), live or closed. No other configuration can ever appear in slot `j`. -/
-theorem config_frozen_after_open (w : World) (evs : List Event) (j : Nat) (cfg : Config)
-    (h : w.conns j = .live cfg) :
-    (runEvents w evs).conns j = .live cfg ∨ (runEvents w evs).conns j = .live (onConnectSlave cfg)
-    ∨ (runEvents w evs).conns j = .closed cfg ∨ (runEvents w evs).conns j = .closed (onConnectSlave cfg) :=
-  runEvents_frozen evs w j cfg (Or.inl h)
+/-- … hence every decision it makes: for every object, name and request kind (while it is live) -/
+theorem isolation_decisions (pre post : List HEvent) (j : Nat) (hf : ∀ e ∈ post, e.fair = true)
+    (hother : ∀ e ∈ post, e.conn ≠ some j)
+    (hj : (hrun Modes.measured HWorld.init pre).conns j ≠ .fresh) (o : Obj) (nm : Name) (r : Req) :
+    (hrun Modes.measured (hrun Modes.measured HWorld.init pre) post).decide j o nm r
+      = (hrun Modes.measured HWorld.init pre).decide j o nm r := by
+  have hc := hrun_conns_other Modes.measured post (hrun Modes.measured HWorld.init pre) j hother
+  have hcfg := isolation pre post j hf hj
+  simp only [HWorld.decide, HWorld.cfgOf, hc] at hcfg ⊢
+  cases hw : (hrun Modes.measured HWorld.init pre).conns j with
+  | fresh => rfl
+  | live ch => simp only [hw] at hcfg ⊢; rw [hcfg]
+  | closed ch => rfl
 
-/-- connections opened AFTER an edit see the edited values (the other half of "snapshot") -/
-theorem later_open_sees_edit (w : World) (d i : Nat) (e : Overlay) (hf : w.conns i = .fresh) :
-    (runEvents w [.editDict d e, .openWith i d]).conns i = .live (applyOverlay w.dflt (mergeOverlay (w.dicts d) e))
-    ∧ (runEvents w [.setDefault e, .open i {}]).conns i = .live (applyOverlay (applyOverlay w.dflt e) {}) := by
-  simp [runEvents, step, hf]
+/-- a history in which connection `j` does not take part leaves slot `j` as it is, even before it is opened -/
+theorem others_cannot_change (w : HWorld) (evs : List HEvent) (j : Nat) (h : ∀ e ∈ evs, e.conn ≠ some j) :
+    (hrun Modes.measured w evs).conns j = w.conns j :=
+  hrun_conns_other Modes.measured evs w j h
+
+/-- **Opening takes a snapshot**: connection `i`'s own dict is the defaults as they are NOW updated with the caller's
+dict as it is NOW (then the classic overrides iff it is the classic connection), and `_config` is that one object -/
+theorem open_takes_snapshot (w : HWorld) (i d : Nat) (classic : Bool) (hf : w.conns i = .fresh) :
+    (hstep Modes.measured w (.open i d classic)).conns i = .live [.own i]
+    ∧ (hstep Modes.measured w (.open i d classic)).dicts (.own i)
+        = (if classic then ((w.dicts .dflt).update (w.dicts (.app d))).update slaveDict
+           else (w.dicts .dflt).update (w.dicts (.app d))) := by
+  rw [measured_modes_are_good]
+  simp [hstep, hf, openConn_good_conns, openConn_good_dicts, goodOwnDict]
+
+/-! #### the variants that share state violate the statement (concrete witnesses) -/
+
+def strictDict : Overlay := { allowPublic := some false, allowSet := some false }
+def laxDict : Overlay := { allowAll := some true, allowSet := some true }
+def goodClassic : ClassicMode := { writesCallerDict := false, addsToSafe := [] }
+
+/-- `self._config = DEFAULT_CONFIG`: opening connection 2 with a lax dict changes what the strict connection 1 enforces -/
+theorem aliasDefault_breaks_isolation :
+    (hrun ⟨.aliasDefault, goodClassic⟩ HWorld.init
+        [.editDict (.app 1) strictDict, .open 1 1 false, .editDict (.app 2) laxDict, .open 2 2 false]).cfgOf 1
+    ≠ (hrun ⟨.aliasDefault, goodClassic⟩ HWorld.init
+        [.editDict (.app 1) strictDict, .open 1 1 false]).cfgOf 1 := by decide
+
+/-- a mapping that reads through: the application editing the dict it passed changes the open connection -/
+theorem layered_breaks_isolation :
+    (hrun ⟨.layered, goodClassic⟩ HWorld.init
+        [.editDict (.app 1) strictDict, .open 1 1 false, .editDict (.app 1) laxDict]).cfgOf 1
+    ≠ (hrun ⟨.layered, goodClassic⟩ HWorld.init [.editDict (.app 1) strictDict, .open 1 1 false]).cfgOf 1 := by
+  decide
+
+/-- the caller's dict object used as `_config`: same -/
+theorem aliasArg_breaks_isolation :
+    (hrun ⟨.aliasArg, goodClassic⟩ HWorld.init
+        [.editDict (.app 1) strictDict, .open 1 1 false, .editDict (.app 1) laxDict]).cfgOf 1
+    ≠ (hrun ⟨.aliasArg, goodClassic⟩ HWorld.init [.editDict (.app 1) strictDict, .open 1 1 false]).cfgOf 1 := by
+  decide
+
+/-- classic overrides written into the caller's dict: a plain connection opened later with the same dict object does
+not enforce what the application wrote (it would under the good variant) -/
+theorem classic_into_caller_dict_breaks_isolation :
+    (hrun ⟨.copy, ⟨true, []⟩⟩ HWorld.init
+        [.editDict (.app 1) strictDict, .open 1 1 true, .open 2 1 false]).cfgOf 2
+    ≠ (hrun Modes.good HWorld.init [.editDict (.app 1) strictDict, .open 1 1 true, .open 2 1 false]).cfgOf 2 := by
+  decide
+
+/-- a classic connect growing the shared default set object in place: connection 1, opened before, now allows `_x` -/
+theorem classic_growing_shared_set_breaks_isolation :
+    (hrun ⟨.copy, ⟨false, [[95, 120]]⟩⟩ HWorld.init [.open 1 1 false, .open 2 2 true]).cfgOf 1
+    ≠ (hrun ⟨.copy, ⟨false, [[95, 120]]⟩⟩ HWorld.init [.open 1 1 false]).cfgOf 1 := by decide
+
+/-- and in the code AS IT IS the default set object is shared: growing it in place (which rpyc never does — that is
+what `fair` excludes and `measured_modes_are_good` checks for the classic connect) reaches every open connection that
+was not given its own `safe_attrs`; replacing `DEFAULT_CONFIG["safe_attrs"]` by a new set does not -/
+theorem shared_default_set_hazard :
+    (hrun Modes.measured HWorld.init [.open 1 1 false, .mutDfltSet [[95, 120]]]).cfgOf 1
+      ≠ (hrun Modes.measured HWorld.init [.open 1 1 false]).cfgOf 1
+    ∧ (hrun Modes.measured HWorld.init [.open 1 1 false, .editDict .dflt { safe := some [[95, 120]] }]).cfgOf 1
+      = (hrun Modes.measured HWorld.init [.open 1 1 false]).cfgOf 1 := by decide
 
 /-- **What classic mode grants itself** (generated from the live `SlaveService.on_connect`): afterwards every name
 of every hook-less object may be read, written and deleted, as itself (no twin substitution), on THAT connection. -/
@@ -412,29 +598,31 @@ example : svcLike.hook Req.getattr.op = none
 example : (handle defaultConfig svcLike (.text foo) .callattr).log
     = [.probe 0 expFoo, .access 0 .get expFoo, .call 0 expFoo] := by decide
 /-- a restricted view under classic-mode blanket permissions still permits exactly its list -/
-example : (run (onConnectSlave defaultConfig) (restrictedView 0 1 [foo] none (fun _ => false)) (.text underX) .get).out
+example : (run (onConnectSlave defaultConfig) (restrictedView 0 1 [foo] none (fun _ => false) (fun _ => true)) (.text underX) .get).out
       = .error .attributeError
-    ∧ (run defaultConfig (restrictedView 0 1 [foo] none (fun _ => false)) (.text foo) .set).out = .ok (.hooked foo) := by
+    ∧ (run defaultConfig (restrictedView 0 1 [foo] none (fun _ => false) (fun _ => true)) (.text foo) .set).out = .ok (.hooked foo) := by
   decide
-/-- a history with three differently configured connections, a classic-mode connect, a close, and the application
-editing — after the fact — both the dict object connection 2 was opened with (then reusing it for connection 4) and
-`DEFAULT_CONFIG`: connection 2 is exactly what its own opening made it, connection 4 sees the edits -/
+/-- a history with differently configured connections, a classic-mode connect, a close, and the application editing —
+after the fact — both the dict object connection 2 was opened with (then reusing it for connection 4) and
+`DEFAULT_CONFIG`: connection 2 enforces exactly what its own opening made it, connection 4 sees the edits -/
 def strict : Overlay := { allowPublic := some false, exposedPrefix := some [120] }
-def history : List Event :=
-  [.open 1 { allowPublic := some true }, .editDict 7 strict, .openWith 2 7,
-   .open 3 {}, .slave 3, .access 1, .close 1,
-   .editDict 7 { allowPublic := some true, allowSet := some true }, .setDefault { allowAll := some true },
-   .openWith 4 7, .access 2, .slave 1]
-example : (runEvents World.init history).conns 2 = .live (applyOverlay defaultConfig strict)
-    ∧ (runEvents World.init history).conns 3 = .live (onConnectSlave defaultConfig)
-    ∧ (runEvents World.init history).conns 1 = .closed (applyOverlay defaultConfig { allowPublic := some true })
-    ∧ (runEvents World.init history).conns 4
-        = .live (applyOverlay (applyOverlay defaultConfig { allowAll := some true })
-                  { allowPublic := some true, allowSet := some true, exposedPrefix := some [120] })
-    ∧ (runEvents World.init history).dflt = applyOverlay defaultConfig { allowAll := some true } := by decide
-/-- the hypotheses of `others_cannot_change` / `config_frozen_after_open` are met by non-trivial histories -/
-example : ∀ e ∈ [Event.editDict 7 { allowAll := some true }, .setDefault { allowAll := some true }, .open 9 {}, .slave 9],
-    e.conn ≠ some 2 := by decide
+def historyPre : List HEvent :=
+  [.editDict (.app 1) { allowPublic := some true }, .open 1 1 false, .editDict (.app 7) strict, .open 2 7 false,
+   .open 3 0 true]
+def historyPost : List HEvent :=
+  [.access 1, .close 1, .editDict (.app 7) { allowPublic := some true, allowSet := some true },
+   .editDict .dflt { allowAll := some true }, .open 4 7 false, .access 2]
+example : (hrun Modes.measured HWorld.init (historyPre ++ historyPost)).cfgOf 2
+      = some (applyOverlay defaultConfig strict)
+    ∧ (hrun Modes.measured HWorld.init (historyPre ++ historyPost)).cfgOf 3 = some (onConnectSlave defaultConfig)
+    ∧ (hrun Modes.measured HWorld.init (historyPre ++ historyPost)).cfgOf 1
+        = some (applyOverlay defaultConfig { allowPublic := some true })
+    ∧ (hrun Modes.measured HWorld.init (historyPre ++ historyPost)).cfgOf 4
+        = some (applyOverlay (applyOverlay defaultConfig { allowAll := some true })
+                  { allowPublic := some true, allowSet := some true, exposedPrefix := some [120] }) := by decide
+/-- the hypotheses of `isolation` are met by that history: every later event is fair, connection 2 is established -/
+example : (∀ e ∈ historyPost, e.fair = true)
+    ∧ (hrun Modes.measured HWorld.init historyPre).conns 2 ≠ .fresh := by decide
 /-- "café" as UTF-8 bytes is the text name -/
 example : utf8Dec false [99, 97, 102, 0xC3, 0xA9] = some [99, 97, 102, 233]
     ∧ utf8Dec false [0xED, 0xA0, 0x80] = none ∧ utf8Dec false [0xFF] = none := by decide
